@@ -96,7 +96,7 @@ def clustered_sector_errors(code, t, tier):
     qc = np.array(code.qubit_coordinates)
     lim = 2 * np.array(code.size)
     sc = np.array(code.stabilizer_coordinates)
-    anchors = list(range(len(sc))) if tier != 'quick' else \
+    anchors = list(range(0, len(sc), 2)) if tier != 'quick' else \
         sorted({0, 1, len(sc) // 2 - 1, len(sc) // 2, len(sc) - 1, len(sc) // 3, (2 * len(sc)) // 3})
     seen = set()
     out = []
@@ -202,8 +202,10 @@ def domain(tier):
         for ax in ('x', 'y'):
             opt.append((cname, list(size), 'XZmix', 'XZZX', {'deformation_axis': ax}, 0.7, tier))
     # correctable sets (uniform weights)
-    L = 5 if tier == 'quick' else 7
-    cap = 2500 if tier == 'quick' else None
+    L = 5 if tier == 'quick' else 6
+    # (the thorough tier without a cap - 520 000 errors - ran for more than an hour, with a cap of
+    # 8000 per record for more than 45 minutes next to another check: capped at 4000, sides <= 6)
+    cap = 2500 if tier == 'quick' else 4000
     for cname in ('Toric2DCode', 'Planar2DCode', 'RotatedPlanar2DCode'):
         for size in codes.sizes(cname, L):
             if min(size) < 2:
